@@ -1,31 +1,39 @@
-(* C04 — Total supply always equals the sum of all vaults: pinned statements (same model as C03).
-   Proved: the invariant "recorded supply = everything that exists" is kept by every operation
-   for resources whose events are fungible events (partial: the non-fungible half needs the
-   id-disjointness invariant, see Props/C03.v), XRD stays untracked, and what an observer replays
-   from the event stream is checked against the stored state by correspondence (Corr/C03_run
-   check_history) and by the harness oracle. *)
+(* C04 — Total supply always equals the sum of all vaults: pinned statements (same model as C03,
+   RV.Model.C03_Ledger).  Inv s = the id-disjointness invariant NFInv (no id in two containers, held
+   ids have live data entries, every non-fungible vault's amount field = number of its ids) + XRD
+   exists and is untracked + for every resource that tracks its supply, recorded supply =
+   everything that exists (vaults + buckets in flight + locked fees) + nothing exists of a resource
+   that does not exist.  It holds at genesis and is preserved by EVERY accepted operation (free
+   credit = 0, non-negative fee shares), hence by every op list and every history; at a transaction
+   boundary "everything that exists" is the sum of the vaults.
+   The event-replay clause of the property is checked by correspondence (Corr/C03_run
+   check_history, model function [replay]) and by the harness oracle, not proved. *)
 From Coq Require Import List ZArith NArith Bool.
 Import ListNotations.
-Require Import RV.Model.C03_Ledger RV.Proof.C03_Ledger.
+Require Import RV.Model.C03_Ledger RV.Proof.C03_Ledger RV.Proof.C03_NF RV.Proof.C04_Inv.
 Open Scope Z_scope.
 
-Theorem C04_supply_invariant_step_partial : forall s o s' evs r t t',
-  step s o = Ok (s', evs) -> op_ok o -> xrd_ok s ->
-  minted r evs = mintedF r evs -> burned r evs = burnedF r evs ->
-  supply_of r s = Some t -> t = total_f r s ->
-  supply_of r s' = Some t' -> t' = total_f r s'.
-Proof. exact supply_invariant_step. Qed.
+Theorem C04_supply_invariant :
+  Inv genesis
+  /\ (forall s o s' evs, Inv s -> step s o = Ok (s', evs) -> op_ok o -> Inv s')
+  /\ (forall ops s s' evs, Inv s -> run s ops = Ok (s', evs) -> Forall op_ok ops -> Inv s').
+Proof. split; [exact Inv_genesis|]. split; [exact step_Inv | exact run_Inv]. Qed.
 
-Theorem C04_supply_invariant_created_partial : forall s o s' evs r t',
-  step s o = Ok (s', evs) -> op_ok o -> xrd_ok s ->
-  minted r evs = mintedF r evs -> burned r evs = burnedF r evs ->
-  supply_of r s = None -> total_f r s = 0 ->
-  supply_of r s' = Some t' -> t' = total_f r s'.
-Proof. exact supply_invariant_created. Qed.
+(* every history of accepted transactions from a state satisfying Inv (e.g. genesis): Inv again; at a
+   transaction boundary every tracked supply = sum of all vaults of the resource; every non-fungible
+   vault's amount = number of ids; no id is held twice *)
+Theorem C04_history_supply_invariant : forall txs s s',
+  Inv s -> Forall (Forall op_ok) txs -> run_history s txs = Some s' ->
+  Inv s' /\ (at_rest s' = true -> forall r t, supply_of r s' = Some t -> t = vault_sum r s')
+  /\ (forall v r a ids, aget v (s_nv s') = Some (r, (a, ids)) -> a = cnt ids)
+  /\ (forall r, NoDup (all_ids r s')).
+Proof. exact history_supply_invariant. Qed.
 
-(* at a transaction boundary "everything that exists" is the sum of the vaults *)
-Theorem C04_at_rest_total : forall r s, at_rest s = true -> total_f r s = fvault_sum r s.
-Proof. exact at_rest_total. Qed.
+(* every operation moves everything that exists of a resource, fungible or not, by minted - burned *)
+Theorem C04_step_total : forall s o s' evs r,
+  NFInv s -> step s o = Ok (s', evs) -> op_ok o ->
+  total r s' = total r s + minted r evs - burned r evs.
+Proof. exact step_total_full. Qed.
 
 Theorem C04_xrd_untracked_preserved : forall s o s' evs, step s o = Ok (s', evs) -> xrd_ok s -> xrd_ok s'.
 Proof. exact step_xrd_ok. Qed.
@@ -35,11 +43,20 @@ Theorem C04_take_nonneg : forall l k a l' r0,
   f_take l k a = Ok (l', r0) -> exists bal, aget k l = Some (r0, bal) /\ a <= bal /\ l' = aset k (r0, bal - a) l.
 Proof. exact f_take_ok. Qed.
 
-Example C04_nonvacuous : xrd_ok demo_state /\ exists s' evs, run demo_state demo_ops = Ok (s', evs)
-   /\ supply_of 5%N s' = Some (fvault_sum 5%N s').
+Definition c04_demo : list (list op) :=
+  [ [ OCreateF 5%N 2 true (Some (1000 * 10 ^ 16, 100%N)); OCreateVault 5%N 10%N; OVaultPut 10%N 100%N ];
+    [ OMintF 5%N (7 * 10 ^ 16) 101%N; OVaultTake 10%N (3 * 10 ^ 16) 102%N; OBucketPut 101%N 102%N; OBurn 101%N ];
+    [ OCreateN 7%N true (Some ([1%N; 2%N; 3%N], 100%N)); OCreateVault 7%N 20%N; OVaultPut 20%N 100%N;
+      OMintN 7%N [4%N] 101%N; OVaultTakeIds 20%N [2%N] 102%N; OBucketPut 101%N 102%N; OBurn 101%N ] ].
+Example C04_nonvacuous : exists s', run_history genesis c04_demo = Some s' /\ at_rest s' = true
+  /\ supply_of 5%N s' = Some (997 * 10 ^ 16) /\ vault_sum 5%N s' = 997 * 10 ^ 16
+  /\ supply_of 7%N s' = Some (2 * 10 ^ 18) /\ vault_sum 7%N s' = 2 * 10 ^ 18
+  /\ Forall (Forall op_ok) c04_demo.
 Proof.
-  split; [eexists; split; reflexivity|]. eexists. eexists. split; [vm_compute; reflexivity|]. vm_compute. reflexivity.
+  eexists. split; [vm_compute; reflexivity|]. repeat split; try (vm_compute; reflexivity).
+  repeat constructor.
 Qed.
 
-Print Assumptions C04_supply_invariant_step_partial.
-Print Assumptions C04_xrd_untracked_preserved.
+Print Assumptions C04_supply_invariant.
+Print Assumptions C04_history_supply_invariant.
+Print Assumptions C04_step_total.
